@@ -90,4 +90,38 @@ PROPS = {
         "level_text": "At every ply of every explored history (~1e6 quick / ~2e7 thorough checks, hundreds of thousands on repeated positions incl. 3rd and later occurrences, placements recurring with different rights/e.p.) Threefold() equalled the true recurrence count capped at 3. Held on the executions observed.",
         "level_note": "trusted: harness/ref for move legality and e.p. normalisation; depends on C02's successor convention (a successor mismatch is tagged in the signature)",
     },
+    "C12": {
+        "pkg": "./c12",
+        "stages": [{"name": "main", "timeout_q": 900, "timeout_t": 3600}],
+        "rule": "cases = table lookups compared with an independent (file,rank) ray walker: for each of the 64 squares EVERY subset of the harness-computed relevant-occupancy mask for rook and bishop (102400 + 5248 subsets), "
+                "each also OR-ed with 64 (quick) / 1024 (thorough) random patterns outside the mask (squares outside the mask must not matter); random full-board occupancies of three densities; king/knight sets for 64 squares; "
+                "single-square pawn capture/push sets for 64x2 and random multi-pawn sets (union law); the interior of InBetween for all 4096 square pairs. distinct_nontrivial = distinct (piece kind, square) tables enumerated. exhaustive over the finite spaces named.",
+        "assumptions": ["the harness ray walker (60 lines, arithmetic on file/rank only) is the geometric definition"],
+        "technique": "runtime monitor: exhaustive enumeration of the finite table domains against an independent geometric ray walker",
+        "level_text": "Complete enumeration: all mask subsets x all squares for both sliders, all leaper/pawn/InBetween entries; plus millions of occupancies with arbitrary squares outside the mask set. One wrong table cell is found with certainty.",
+        "level_note": "trusted: the harness's geometric definitions; the magic index function is exercised through the public BishopMoves/RookMoves only",
+    },
+    "C17": {
+        "pkg": "./c17",
+        "stages": [{"name": "main", "timeout_q": 900, "timeout_t": 3600}],
+        "rule": "cases = valid positions, each evaluated together with its colour-flipped mirror and with variants that differ only in non-positional state: every other castling-rights subset that is valid, every valid e.p. target and its absence, "
+                "another fullmove number, a second evaluation of the same board; plus positions reached by MakeMove compared with the same position loaded from FEN (hash history), and the UCI eval command. "
+                "Sources: dense (promoted material), sparse, adversarial, castling-ready, KNB v K with all bishop colours/corners, minor-piece-only endings around the insufficient-material boundary; clocks 0..100. "
+                "distinct_nontrivial = distinct position keys. " + VALID,
+        "assumptions": ["metamorphic oracle: no reference evaluation is needed", REF + " (used only for validity and mirroring)"],
+        "technique": "runtime monitor: metamorphic equality oracle (mirror image, non-positional state variants) over generated positions",
+        "level_text": "For every explored position the evaluation equalled that of its mirror image and of all variants differing only in rights / e.p. / fullmove number / history / prior evaluations (~2.5e5 positions x ~12 evaluations quick, ~6e6 thorough). Held on the executions observed.",
+        "level_note": "trusted: ref.Mirror (rank flip + colour swap, self-tested via perft symmetry)",
+    },
+    "C18": {
+        "pkg": "./c18",
+        "stages": [{"name": "main", "timeout_q": 1500, "timeout_t": 7200}],
+        "rule": "cases = (position, legal move, threshold) triples: for every legal move of generated positions (dense with batteries and x-rays, adversarial e.p. geometry, sparse, mixed) heur.SEE is probed at every admissible balance +-1 and on a 50-grid from -2000 to 2000; "
+                "the answers must be monotone and the largest threshold answered true must be one of the balances of the reference capture-sequence minimax (mailbox swap: least valuable attacker with N=B=300, attackers recomputed from scratch after each removal so x-rays join, "
+                "stand-pat at every step, king captures only when no enemy attacker remains, no pins, no recapture promotions) explored over ALL resolutions of ties among equally valued least attackers. evaluations counts threshold probes; distinct_nontrivial = distinct position keys. " + VALID,
+        "assumptions": [REF + " (validity only)", "the reference swap algorithm (self-tested on hand-computed exchanges at the start of every run) is the capture-sequence minimax of the statement"],
+        "technique": "runtime monitor: reference-model oracle (exchange minimax over all tie resolutions) + monotonicity check on a threshold scan",
+        "level_text": "For every explored (position, legal move) the SEE answers were monotone in the threshold and their supremum was an admissible minimax balance (~1e6 moves x ~90 thresholds quick, ~2.5e7 moves thorough). Sound for any tie-break the engine uses. Held on the executions observed.",
+        "level_note": "trusted: the 60-line reference swap; pins and recapturing-pawn promotions are outside the modelled exchange, as in the statement",
+    },
 }
